@@ -3,6 +3,9 @@
 # whose path matches the regex from /tmp/b_X/verif into /verif
 X="$1"; RX="$2"; SRC=/tmp/b_$X/verif; shift
 PROTECT='^(harness/common.py|harness/check_C18.py|harness/c18_programs.py|harness/gen_tables.py|harness/py2lean.py|harness/make_manifest.py|harness/regen_all.py|harness/cxx_build.py|harness/mk_workspace.sh|harness/merge_from.sh|harness/run_baseline.py|lean/Driver.lean|lean/TdVerif.lean|lean/TdVerif/Sexp.lean|lean/lakefile.toml|lean/lake-manifest.json|lean/TdVerif/Props/C18.lean|lean/TdVerif/Drive/C18.lean|lean/TdVerif/Gen/PyFuns.lean|MANIFEST.json|known_findings.json|DESIGN.md|BUILDER_GUIDE.md|properties.jsonl|check|setup.sh|.gitignore)$'
+if [ "$X" = "K" ]; then  # builder K owns the C18 files and the translator
+  PROTECT=$(echo "$PROTECT" | sed 's#harness/check_C18.py|harness/c18_programs.py|harness/gen_tables.py|harness/py2lean.py|##; s#lean/TdVerif/Props/C18.lean|lean/TdVerif/Drive/C18.lean|lean/TdVerif/Gen/PyFuns.lean|##')
+fi
 cd "$SRC" || exit 1
 find . -type f \( -path './lean/.lake' -o -path './.build' -o -path './replays' -o -name '__pycache__' \) -prune -o -type f -print | sed 's|^\./||' | grep -v -E '^(lean/\.lake/|\.build/|replays/|evidence/)|__pycache__|\.pyc$' | grep -E "$RX" | sort | while read f; do
   if [ ! -e "/verif/$f" ] || ! cmp -s "$f" "/verif/$f"; then
